@@ -22,7 +22,7 @@ UNITS = {
             'V-range: `impl Iterator for ValueRange { fn next }` verified as an inherent fn',
         ]),
     'V-buffer-tail': dict(
-        tmpl='buffer_tail.rs.tmpl', props=['C07'],
+        tmpl='buffer_tail.rs.tmpl', props=['C07', 'C01'],
         functions=['CssData::into_buffer (tail: charset/BOM marker, newline trimming)'],
         assumptions=[
             'Verus/Z3 trusted; vstd specs of Vec::{last,pop,push,len,is_empty,with_capacity,extend_from_slice}, str::{len,as_bytes}',
@@ -32,6 +32,35 @@ UNITS = {
             'V-buffer-tail: requires buf.len() <= isize::MAX - 255 (Rust Vec invariant); usize is 64 bit',
             'V-buffer-tail: Format/Error are stubs; the statement range is wrapped in a function whose parameters are its free variables (buf, format)',
             'V-buffer-tail: exactly-one-newline is proved except when compressed output ends in newline + `;` (stated in the postcondition, no such writer output is known)',
+        ]),
+    'V-ordermap': dict(
+        tmpl='ordermap.rs.tmpl', props=['C13'],
+        functions=['OrderMap::get', 'OrderMap::len', 'OrderMap::is_empty', 'OrderMap::new', 'OrderMap::get_item',
+                   'OrderMap::set_item'],
+        assumptions=[
+            'Verus/Z3 trusted; vstd specs of Vec::{new,len,is_empty,get,index_mut}, slice iteration and PartialEq::eq (r == a.eq_spec(b) when K::obeys_eq_spec())',
+            'V-ordermap: requires K::obeys_eq_spec() — the key type\'s == is a function of its operands (true of css::Value::eq, which is itself outside this unit)',
+            'V-ordermap: listed rewrite — the for loop\'s iterator is named (`for (k, v) in it: &self.0`) so that the invariant can mention its position',
+        ]),
+    'V-cssbuf': dict(
+        tmpl='cssbuf.rs.tmpl', props=['C07', 'C01'],
+        functions=['CssBuf::start_block', 'CssBuf::end_block', 'CssBuf::pop_nl', 'CssBuf::add_str', 'CssBuf::add_one',
+                   'CssBuf::opt_nl', 'CssBuf::len', 'CssBuf::indent_level', 'CssBuf::take',
+                   'lemma L-braces (start_block +1 / end_block -1 on the brace balance; indent == 2 * balance is invariant)'],
+        assumptions=[
+            'Verus/Z3 trusted; vstd specs of Vec::{last,pop,is_empty,len,extend_from_slice}, slice::ends_with, str::as_bytes, Option ==',
+            'V-cssbuf: Format is a stub (is_compressed only); CssBuf::do_indent is external_body with the contract "appends newline + indent spaces, nothing when compressed", which is discharged on the real code by Kani (c07_cssbuf_do_indent_text_*, contract:get_indent) and Verus V-indent',
+            'V-cssbuf: assume(b"\\n\\n"@ == [10, 10]) in opt_nl — Verus does not model byte-string literals',
+            'V-cssbuf: requires indent <= usize::MAX - 2 for start_block and indent >= 2 for end_block (a block was opened); usize is 64 bit',
+        ]),
+    'V-indent': dict(
+        tmpl='indent.rs.tmpl', props=['C01', 'C07'],
+        functions=['format::long_indent', 'static format::INDENT'],
+        assumptions=[
+            'Verus/Z3 trusted; vstd specs of String::{push_str,push}, str::len, RangeInclusive<usize> iteration',
+            'V-indent: assumed contract String::with_capacity(n)@ == empty',
+            'V-indent: listed rewrites — `static INDENT: &str = LIT;` -> `exec static INDENT ... ensures INDENT@ == LIT@ { LIT }` (LIT copied from /repo), iterator named, proof block revealing LIT before the loop',
+            'V-indent: requires len >= INDENT.len() (the only call site is the None branch of INDENT.get(..=len)) and len < usize::MAX',
         ]),
 }
 
@@ -85,7 +114,7 @@ def run_unit(u, repo, root, workroot, log):
     res['sha256'] = hashlib.sha256(text.encode()).hexdigest()
     # mechanical scan for unchecked assumptions inside the generated file
     res['assume_scan'] = sorted(set(re.findall(r'\b(assume\(|external_body|assume_specification|admit\()', text)))
-    p = subprocess.run(['verus', path, '--output-json', '--multiple-errors', '10'], cwd=d, stdout=subprocess.PIPE,
+    p = subprocess.run(['verus', path, '--output-json', '--multiple-errors', '10', '--triggers-mode', 'silent'], cwd=d, stdout=subprocess.PIPE,
                        stderr=subprocess.PIPE, text=True, timeout=900)
     res['time_s'] = round(time.time() - t0, 2)
     try:
@@ -125,7 +154,7 @@ def run_units(units, repo, root, workroot, log):
 
 
 def write_replay(root, pid, res, oids):
-    rdir = os.path.join(root, 'replays')
+    rdir = os.environ.get('VERIF_REPLAY_DIR', os.path.join(root, 'replays'))
     os.makedirs(rdir, exist_ok=True)
     rpath = os.path.join(rdir, '%s_%s.json' % (pid, res['unit']))
     rec = {'backend': 'verus', 'property': pid, 'unit': res['unit'], 'obligations': oids,
